@@ -10,6 +10,9 @@ type conditionPart struct {
 	expr ast.Expression
 	op   string
 	isOp bool
+	// comments of the flattened && / || nodes which start / end at this operand
+	leading  ast.Comments
+	trailing ast.Comments
 }
 
 // collectCompoundConditionParts flattens top-level && and || into a linear list.
@@ -21,9 +24,14 @@ func collectCompoundConditionParts(expr ast.Expression, parts *[]conditionPart) 
 		return false
 	case *ast.InfixExpression:
 		if t.Operator == "&&" || t.Operator == "||" {
+			first := len(*parts)
 			collectCompoundConditionParts(t.Left, parts)
 			*parts = append(*parts, conditionPart{isOp: true, op: t.Operator})
 			collectCompoundConditionParts(t.Right, parts)
+			// The flattened node itself is not printed, its comments go to its first and last operand
+			last := len(*parts) - 1
+			(*parts)[first].leading = append(append(ast.Comments{}, t.Leading...), (*parts)[first].leading...)
+			(*parts)[last].trailing = append((*parts)[last].trailing, t.Trailing...)
 			return true
 		}
 	}
@@ -48,16 +56,16 @@ func (f *Formatter) formatConditionLines(expr ast.Expression) ([]string, bool, b
 				lines = append(lines, extraIndent+line)
 			}
 			lines = append(lines, ")")
-			return lines, true, true
+			return f.withConditionComments(lines, t.Leading, t.Trailing), true, true
 		}
 		inner := strings.TrimSpace(f.formatExpression(t.Right).String())
-		return []string{"(" + inner + ")"}, false, false
+		return f.withConditionComments([]string{"(" + inner + ")"}, t.Leading, t.Trailing), false, false
 	case *ast.PrefixExpression:
 		// Handle negation and other prefix operators containing compound conditions.
 		rightLines, rightMultiline, rightPreserve := f.formatConditionLines(t.Right)
 		if rightMultiline {
 			rightLines[0] = t.Operator + rightLines[0]
-			return rightLines, true, rightPreserve
+			return f.withConditionComments(rightLines, t.Leading, t.Trailing), true, rightPreserve
 		}
 	case *ast.InfixExpression:
 		// Only split compound boolean operators; other infix expressions stay inline.
@@ -70,6 +78,7 @@ func (f *Formatter) formatConditionLines(expr ast.Expression) ([]string, bool, b
 		}
 
 		var operands []ast.Expression
+		var operandParts []conditionPart
 		var ops []string
 		for _, part := range parts {
 			if part.isOp {
@@ -77,6 +86,7 @@ func (f *Formatter) formatConditionLines(expr ast.Expression) ([]string, bool, b
 				continue
 			}
 			operands = append(operands, part.expr)
+			operandParts = append(operandParts, part)
 		}
 
 		if len(operands) == 0 || len(operands) != len(ops)+1 {
@@ -90,6 +100,7 @@ func (f *Formatter) formatConditionLines(expr ast.Expression) ([]string, bool, b
 			if len(opLines) == 0 {
 				continue
 			}
+			opLines = f.withConditionComments(opLines, operandParts[i].leading, operandParts[i].trailing)
 			if i < len(ops) {
 				opLines[len(opLines)-1] = opLines[len(opLines)-1] + " " + ops[i]
 			}
@@ -101,6 +112,22 @@ func (f *Formatter) formatConditionLines(expr ast.Expression) ([]string, bool, b
 
 	line := strings.TrimSpace(f.formatExpression(expr).String())
 	return []string{line}, false, false
+}
+
+// withConditionComments puts the comments of a node which is not printed by formatExpression
+// in front of the first and behind the last line of its condition lines.
+func (f *Formatter) withConditionComments(lines []string, leading, trailing ast.Comments) []string {
+	if len(lines) == 0 {
+		return lines
+	}
+	if v := strings.TrimSpace(f.formatComment(leading, " ", 0)); v != "" {
+		indent := lines[0][:len(lines[0])-len(strings.TrimLeft(lines[0], " \t"))]
+		lines[0] = indent + v + " " + strings.TrimLeft(lines[0], " \t")
+	}
+	if v := strings.TrimSpace(f.formatComment(trailing, " ", 0)); v != "" {
+		lines[len(lines)-1] += " " + v
+	}
+	return lines
 }
 
 // formatConditionExpression returns a chunked condition string and flags indicating multiline/preserve.
